@@ -28,7 +28,9 @@ CONSTANTS Wal,         \* sequence of samples <<series, k>> in WAL order
           InitShards,  \* shards at start
           Targets,     \* sequence of shard counts of the successive reshards (the final Stop follows them)
           MaxRec, MaxFatal,   \* bounds on injected recoverable / non-recoverable send errors
-          Timer,       \* TRUE: the BatchSendDeadline timer may fire at any time
+          Timer,       \* "none": the BatchSendDeadline timer never fires; "any": it may fire whenever a shard is idle;
+                       \* "first": it fires exactly once per shard goroutine, before anything else happens after the
+                       \* shards were started (what a replay can force: deadline short at start, long afterwards)
           EmitMode,
           Record,      \* FALSE: no history variable (liveness checking without VIEW)
           Eager        \* TRUE: an idle shard goroutine receives a published batch before anything else happens (what a
@@ -44,6 +46,8 @@ VARIABLES wpos,      \* index in Wal of the sample the watcher is trying to enqu
           pend,      \* [shard -> FlushAndShutdown still has to publish the partial batch (batchQueue was full)]
           infl,      \* [shard -> batch being sent]
           alive,     \* [shard -> runShard goroutine running]
+          nidle,     \* number of timer firings on a shard with nothing queued ("any" mode bounds them: an idle timer loop is not progress)
+          tmr,       \* [shard -> "armed" | "fired" (the goroutine chose the timer case, queue.Batch() not yet called) | "off"]
           rpc,       \* resharder: "idle" | "soft" | "flushing" | "stopped" | "final"
           nres,      \* reshards done
           received,  \* samples accepted by the endpoint, in order
@@ -51,8 +55,8 @@ VARIABLES wpos,      \* index in Wal of the sample the watcher is trying to enqu
           nrec, nfatal,
           hist
 
-vars == <<wpos, n, soft, locked, part, chan, closed, pend, infl, alive, rpc, nres, received, lostFatal, nrec, nfatal, hist>>
-View0 == <<wpos, n, soft, locked, part, chan, closed, pend, infl, alive, rpc, nres, received, lostFatal, nrec, nfatal>>
+vars == <<wpos, n, soft, locked, part, chan, closed, pend, infl, alive, tmr, nidle, rpc, nres, received, lostFatal, nrec, nfatal, hist>>
+View0 == <<wpos, n, soft, locked, part, chan, closed, pend, infl, alive, tmr, nidle, rpc, nres, received, lostFatal, nrec, nfatal>>
 
 MaxShards == 3
 Shards == 0..(MaxShards - 1)
@@ -69,7 +73,8 @@ Init ==
   /\ part = Empty /\ chan = Empty /\ infl = Empty
   /\ closed = [q \in Shards |-> FALSE] /\ pend = [q \in Shards |-> FALSE]
   /\ alive = [q \in Shards |-> q < InitShards]
-  /\ rpc = "idle" /\ nres = 0
+  /\ tmr = [q \in Shards |-> IF q < InitShards /\ Timer # "none" THEN "armed" ELSE "off"]
+  /\ rpc = "idle" /\ nres = 0 /\ nidle = 0
   /\ received = <<>> /\ lostFatal = {} /\ nrec = 0 /\ nfatal = 0
   /\ hist = <<>>
 
@@ -92,7 +97,7 @@ Enqueue ==
                         /\ part' = [part EXCEPT ![q] = <<>>]
                    ELSE /\ part' = [part EXCEPT ![q] = Append(@, x)]
                         /\ UNCHANGED chan
-        /\ UNCHANGED <<n, soft, locked, closed, pend, infl, alive, rpc, nres, received, lostFatal, nrec, nfatal>>
+        /\ UNCHANGED <<n, soft, locked, closed, pend, infl, alive, tmr, rpc, nres, received, lostFatal, nrec, nfatal, nidle>>
         /\ Log([a |-> "Enqueue", x |-> x, q |-> q, ok |-> ok])
 
 -----------------------------------------------------------------------------
@@ -100,20 +105,33 @@ Enqueue ==
 
 \* runShard: a batch arrives on batchQueue                          [-> qm.shard.dequeued]
 Dequeue(q) ==
-  /\ alive[q] /\ infl[q] = <<>> /\ chan[q] # <<>>
+  /\ alive[q] /\ infl[q] = <<>> /\ chan[q] # <<>> /\ tmr[q] # "fired"
   /\ infl' = [infl EXCEPT ![q] = chan[q][1]]
   /\ chan' = [chan EXCEPT ![q] = Tail(@)]
-  /\ UNCHANGED <<wpos, n, soft, locked, part, closed, pend, alive, rpc, nres, received, lostFatal, nrec, nfatal>>
+  /\ UNCHANGED <<wpos, n, soft, locked, part, closed, pend, alive, tmr, rpc, nres, received, lostFatal, nrec, nfatal, nidle>>
   /\ Log([a |-> "Dequeue", q |-> q, batch |-> chan[q][1]])
 
-\* runShard: the timer fires, queue.Batch() takes a published batch if there is one, else the partial batch
-TimerFlush(q) ==
-  /\ Timer /\ alive[q] /\ infl[q] = <<>> /\ (chan[q] # <<>> \/ part[q] # <<>>)
+\* runShard: the select commits to the timer case (the goroutine is idle)      [-> qm.shard.timer_fired]
+TimerFire(q) ==
+  /\ Timer # "none" /\ alive[q] /\ infl[q] = <<>>
+  /\ IF Timer = "first" THEN tmr[q] = "armed" ELSE tmr[q] # "fired"
+  /\ LET idle == chan[q] = <<>> /\ part[q] = <<>> IN
+     /\ Timer = "any" /\ idle => nidle < 2
+     /\ nidle' = IF Timer = "any" /\ idle THEN nidle + 1 ELSE nidle
+  /\ tmr' = [tmr EXCEPT ![q] = "fired"]
+  /\ UNCHANGED <<wpos, n, soft, locked, part, chan, closed, pend, infl, alive, rpc, nres, received, lostFatal, nrec, nfatal>>
+  /\ Log([a |-> "TimerFire", q |-> q])
+\* ... and later calls queue.Batch(): a published batch has to be taken before the partial batch, otherwise the
+\* newer partial batch overtakes it (both may hold samples of one series); on a closed, drained queue nothing
+TimerTake(q) ==
+  /\ tmr[q] = "fired"
+  /\ tmr' = [tmr EXCEPT ![q] = IF Timer = "first" THEN "off" ELSE "armed"]
   /\ IF chan[q] # <<>>
      THEN /\ infl' = [infl EXCEPT ![q] = chan[q][1]] /\ chan' = [chan EXCEPT ![q] = Tail(@)] /\ UNCHANGED part
+     ELSE IF closed[q] THEN UNCHANGED <<infl, chan, part>>
      ELSE /\ infl' = [infl EXCEPT ![q] = part[q]] /\ part' = [part EXCEPT ![q] = <<>>] /\ UNCHANGED chan
-  /\ UNCHANGED <<wpos, n, soft, locked, closed, pend, alive, rpc, nres, received, lostFatal, nrec, nfatal>>
-  /\ Log([a |-> "TimerFlush", q |-> q])
+  /\ UNCHANGED <<wpos, n, soft, locked, closed, pend, alive, rpc, nres, received, lostFatal, nrec, nfatal, nidle>>
+  /\ Log([a |-> "TimerTake", q |-> q, batch |-> infl'[q]])
 
 \* one attempt of sendSamplesWithBackoff against the endpoint
 Send(q, res) ==
@@ -126,14 +144,14 @@ Send(q, res) ==
                            /\ lostFatal' = lostFatal \cup {infl[q][i] : i \in 1..Len(infl[q])}
                            /\ infl' = [infl EXCEPT ![q] = <<>>]
                            /\ UNCHANGED <<received, nrec>>
-  /\ UNCHANGED <<wpos, n, soft, locked, part, chan, closed, pend, alive, rpc, nres>>
+  /\ UNCHANGED <<wpos, n, soft, locked, part, chan, closed, pend, alive, tmr, rpc, nres, nidle>>
   /\ Log([a |-> "Send", q |-> q, res |-> res, batch |-> infl[q]])
 
 \* runShard returns when batchQueue is closed and drained             [-> qm.shard.exit]
 ShardExit(q) ==
-  /\ alive[q] /\ closed[q] /\ chan[q] = <<>> /\ infl[q] = <<>>
+  /\ alive[q] /\ closed[q] /\ chan[q] = <<>> /\ infl[q] = <<>> /\ tmr[q] # "fired"
   /\ alive' = [alive EXCEPT ![q] = FALSE]
-  /\ UNCHANGED <<wpos, n, soft, locked, part, chan, closed, pend, infl, rpc, nres, received, lostFatal, nrec, nfatal>>
+  /\ UNCHANGED <<wpos, n, soft, locked, part, chan, closed, pend, infl, tmr, rpc, nres, received, lostFatal, nrec, nfatal, nidle>>
   /\ Log([a |-> "ShardExit", q |-> q])
 
 -----------------------------------------------------------------------------
@@ -146,7 +164,7 @@ StopSoft ==
   /\ rpc = "idle"
   /\ Final => wpos > Len(Wal)            \* (the final Stop is issued once the WAL has been consumed)
   /\ soft' = TRUE /\ rpc' = "soft"
-  /\ UNCHANGED <<wpos, n, locked, part, chan, closed, pend, infl, alive, nres, received, lostFatal, nrec, nfatal>>
+  /\ UNCHANGED <<wpos, n, locked, part, chan, closed, pend, infl, alive, tmr, nres, received, lostFatal, nrec, nfatal, nidle>>
   /\ Log([a |-> "StopSoft"])
 
 \* FlushAndShutdown of one queue: publish the partial batch if batchQueue has room, then close it
@@ -161,20 +179,20 @@ StopFlush ==
   /\ chan' = [q \in Shards |-> IF q \in Cur THEN FlushOne(q, part[q], chan[q]).chan ELSE chan[q]]
   /\ closed' = [q \in Shards |-> IF q \in Cur THEN FlushOne(q, part[q], chan[q]).closed ELSE closed[q]]
   /\ pend' = [q \in Shards |-> IF q \in Cur THEN FlushOne(q, part[q], chan[q]).pend ELSE pend[q]]
-  /\ UNCHANGED <<wpos, n, soft, infl, alive, nres, received, lostFatal, nrec, nfatal>>
+  /\ UNCHANGED <<wpos, n, soft, infl, alive, tmr, nres, received, lostFatal, nrec, nfatal, nidle>>
   /\ Log([a |-> "StopFlush", closed |-> {q \in Cur : FlushOne(q, part[q], chan[q]).closed}])
 \* FlushAndShutdown retries (every second) until batchQueue has room
 FlushRetry(q) ==
   /\ rpc = "flushing" /\ pend[q] /\ Len(chan[q]) < ChanCap
   /\ chan' = [chan EXCEPT ![q] = Append(@, part[q])] /\ part' = [part EXCEPT ![q] = <<>>]
   /\ closed' = [closed EXCEPT ![q] = TRUE] /\ pend' = [pend EXCEPT ![q] = FALSE]
-  /\ UNCHANGED <<wpos, n, soft, locked, infl, alive, rpc, nres, received, lostFatal, nrec, nfatal>>
+  /\ UNCHANGED <<wpos, n, soft, locked, infl, alive, tmr, rpc, nres, received, lostFatal, nrec, nfatal, nidle>>
   /\ Log([a |-> "FlushRetry", q |-> q])
 \* all shards have exited: stop returns
 StopDone ==
   /\ rpc = "flushing" /\ \A q \in Cur : ~alive[q]
   /\ locked' = FALSE /\ rpc' = IF Final THEN "final" ELSE "stopped"
-  /\ UNCHANGED <<wpos, n, soft, part, chan, closed, pend, infl, alive, nres, received, lostFatal, nrec, nfatal>>
+  /\ UNCHANGED <<wpos, n, soft, part, chan, closed, pend, infl, alive, tmr, nres, received, lostFatal, nrec, nfatal, nidle>>
   /\ Log([a |-> "StopDone", final |-> Final])
 \* shards.start(Targets[nres+1])
 Start ==
@@ -184,16 +202,20 @@ Start ==
      /\ part' = Empty /\ chan' = Empty /\ infl' = Empty
      /\ closed' = [q \in Shards |-> FALSE] /\ pend' = [q \in Shards |-> FALSE]
      /\ alive' = [q \in Shards |-> q < m]
-     /\ UNCHANGED <<wpos, locked, received, lostFatal, nrec, nfatal>>
+     /\ tmr' = [q \in Shards |-> IF q < m /\ Timer # "none" THEN "armed" ELSE "off"]
+     /\ UNCHANGED <<wpos, locked, received, lostFatal, nrec, nfatal, nidle>>
      /\ Log([a |-> "Start", n |-> m])
 
-DeqEnabled(q) == alive[q] /\ infl[q] = <<>> /\ chan[q] # <<>>
+DeqEnabled(q) == alive[q] /\ infl[q] = <<>> /\ chan[q] # <<>> /\ tmr[q] # "fired"
+\* Timer = "first": right after the shards were started every shard goroutine first runs into its timer
+MustFire == Timer = "first" /\ \E q \in Cur : alive[q] /\ tmr[q] = "armed"
 Other == \/ Enqueue
-         \/ \E q \in Cur : TimerFlush(q) \/ ShardExit(q) \/ FlushRetry(q)
+         \/ \E q \in Cur : TimerTake(q) \/ ShardExit(q) \/ FlushRetry(q)
                            \/ \E res \in {"ok", "rec", "fatal"} : Send(q, res)
          \/ StopSoft \/ StopFlush \/ StopDone \/ Start
-Next == \/ \E q \in Cur : Dequeue(q)
-        \/ (~Eager \/ ~\E q \in Cur : DeqEnabled(q)) /\ Other
+Next == IF MustFire THEN \E q \in Cur : TimerFire(q)
+        ELSE \/ \E q \in Cur : Dequeue(q)
+             \/ (~Eager \/ ~\E q \in Cur : DeqEnabled(q)) /\ (Other \/ \E q \in Cur : TimerFire(q))
 Spec == Init /\ [][Next]_vars
 FairSpec == Spec /\ WF_vars(Next)
 
@@ -230,7 +252,8 @@ Terminates == <>(rpc = "final")
 (* Emission.                                                                *)
 
 Beh == [steps |-> hist, received |-> received, lost |-> lostFatal,
-        cfg |-> [batch |-> BatchSize, chancap |-> ChanCap, init |-> InitShards, dropped |-> Dropped, refs |-> RefOf, wal |-> Wal]]
+        cfg |-> [batch |-> BatchSize, chancap |-> ChanCap, init |-> InitShards, dropped |-> Dropped, refs |-> RefOf, wal |-> Wal,
+                 timer |-> Timer]]
 EmitState == EmitMode # "state" \/ PrintT("@@TR " \o ToJson(Beh))
 \* complete behaviours only
 EmitFinal == EmitMode # "final" \/ rpc # "final" \/ PrintT("@@TR " \o ToJson(Beh))
